@@ -23,7 +23,7 @@ ALLK = {"ReadTimeout", "WriteTimeout", "Unavailable", "OverloadedErrorMessage", 
         "ServerError", "ConnectionShutdown"}
 D4 = {"RETRY", "NEXT", "RETHROW", "IGNORE"}
 BASE = dict(NHosts=3, PoolConds=set(), MaxBad=0, SpecChoices={0, 1, 2}, IdemChoices={True}, TargetChoices={0},
-            OkKinds={"rows"}, ErrKinds={"Unavailable"}, FatalKinds=set(), Decisions=D4, CLs={0}, MaxRetries=1,
+            OkKinds={"rows"}, ErrKinds={"Unavailable"}, FatalKinds=set(), Decisions=D4, CLs={99}, MaxRetries=1,
             MaxEpoch=1, Timeouts=True, Late=True)
 
 
@@ -43,7 +43,7 @@ GRAPHS = {
              _c(OkKinds={"rows", "more"}, Decisions={"RETRY", "NEXT"}, MaxEpoch=2, Late=False,
                 PoolConds={"missing", "busy"}, MaxBad=1))],
     "C16": [("every retryable error x every decision x consistency x idempotence",
-             _c(SpecChoices={0, 1}, IdemChoices={True, False}, ErrKinds=ALLK, CLs={0, 4}, Late=False, Timeouts=False))],
+             _c(SpecChoices={0, 1}, IdemChoices={True, False}, ErrKinds=ALLK, CLs={99, 0, 4}, Late=False, Timeouts=False))],
     "C17": [("all 5^3 pool vectors, explicit target host or none",
              _c(SpecChoices={0, 1}, TargetChoices={0, 2}, PoolConds={"missing", "shutdown", "busy", "failing"}, MaxBad=3,
                 ErrKinds={"Unavailable", "ConnectionShutdown"}, Decisions={"RETRY", "NEXT", "RETHROW"}, Late=False,
@@ -52,12 +52,12 @@ GRAPHS = {
 BIG = {
     "C14": ("0-2 speculative x 2 retries x all answer kinds x 2 pages x a failing pool",
             _c(OkKinds={"rows", "void", "more"}, ErrKinds={"Unavailable", "ConnectionShutdown"},
-               FatalKinds={"SyntaxException"}, CLs={0, 1}, MaxRetries=2, MaxEpoch=2, PoolConds={"failing"}, MaxBad=1)),
+               FatalKinds={"SyntaxException"}, CLs={99, 0}, MaxRetries=2, MaxEpoch=2, PoolConds={"failing"}, MaxBad=1)),
     "C15": ("two pages x every pool condition on up to 2 hosts x 2 retries",
             _c(OkKinds={"rows", "more", "void"}, ErrKinds={"Unavailable", "ConnectionShutdown"}, MaxRetries=2, MaxEpoch=2,
                PoolConds={"missing", "busy", "failing", "shutdown"}, MaxBad=2)),
-    "C16": ("7 error kinds x 4 decisions x 2 consistencies x 2 retries x speculative 0-1 x idempotence, timeout",
-            _c(SpecChoices={0, 1}, IdemChoices={True, False}, ErrKinds=ALLK, CLs={0, 4}, MaxRetries=2, Late=False)),
+    "C16": ("7 error kinds x 4 decisions x consistency {None, ANY, QUORUM} x 2 retries x speculative 0-1 x idempotence, timeout",
+            _c(SpecChoices={0, 1}, IdemChoices={True, False}, ErrKinds=ALLK, CLs={99, 0, 4}, MaxRetries=2, Late=False)),
     "C17": ("all 6^4 pool vectors (missing, shut down, busy, failing, unwritable, healthy) x target host 0-4 x 2 retries",
             _c(NHosts=4, SpecChoices={0, 1}, TargetChoices={0, 1, 2, 3, 4},
                PoolConds={"missing", "shutdown", "busy", "failing", "unwritable"}, MaxBad=4,
@@ -68,14 +68,14 @@ LIVENESS = _c(NHosts=2, OkKinds={"rows", "more"}, Decisions={"RETRY", "NEXT", "R
 TRACE_CONSTS = dict(NHosts=3, PoolConds={"missing", "shutdown", "busy", "failing", "unwritable", "noconn"}, MaxBad=3,
                     SpecChoices={0, 1, 2}, IdemChoices={True, False}, TargetChoices={0, 1, 2, 3},
                     OkKinds={"rows", "more", "void"}, ErrKinds=ALLK, FatalKinds={"SyntaxException", "InvalidRequest"},
-                    Decisions=D4, CLs={0, 1, 4, 6}, MaxRetries=3, MaxEpoch=2, Timeouts=True, Late=True)
+                    Decisions=D4, CLs={99, 0, 1, 4}, MaxRetries=3, MaxEpoch=2, Timeouts=True, Late=True)
 
 ACTIONS = ["Start", "AnsOk", "AnsErr", "SpecFire", "TimeoutFire", "RetryTask"]
 # Witness_* predicates of Request.tla (negated reachability) that TLC itself must violate on the first graph configuration
 TLA_WITNESSES = {
     "C14": ["Witness_LateAnswer", "Witness_TwoInFlight", "Witness_TimeoutKeepsAtt", "Witness_RetryAfterTimeout"],
     "C15": ["Witness_Page2Unset", "Witness_Page2Timeout"],
-    "C16": ["Witness_SameHostTwice", "Witness_RetryCL"],
+    "C16": ["Witness_SameHostTwice", "Witness_RetryCL", "Witness_RetryAtANY"],
     "C17": ["Witness_NoHost", "Witness_NoHostAfterSend", "Witness_SkipAll"],
 }
 
@@ -103,6 +103,7 @@ WITNESS = {
     "C16": {
         "same host twice": lambda s: len(set(s["tried"])) < len(s["tried"]),
         "policy changed the consistency": lambda s: s["cl"] != 10 and len(s["sentLog"]) >= 2 and s["sentLog"][-1]["cl"] != 10,
+        "retry sent at consistency ANY (numeric 0)": lambda s: s["cl"] == 0 and len(s["sentLog"]) >= 2 and s["sentLog"][-1]["cl"] == 0,
         "second consultation with retry_num 1": lambda s: any(e["rn"] == 1 for e in s["policyLog"]),
         "non-idempotent statement": lambda s: s["started"] and not s["idem"],
         "ignored": lambda s: s["final"] == "empty" and any(e["dec"] == "IGNORE" for e in s["policyLog"]),
